@@ -29,8 +29,8 @@ theorem exec_reserve {st : State} {v : Nat} (h : AOk st v) (n : Nat) :
   · simp only [hc]; rfl
 
 theorem reserve_loop0 (this ob nb n fuel : Nat) (H : Nat → Hdr) (st : State) (hf : n < fuel) :
-    LifeArray.reserve_loop1 this (.heap ob n) fuel (mk st H) (.heap nb 0) (.heap ob 0) =
-      some (mk (reserveCopy st ob nb (List.range n)) H, .heap nb n, .heap ob n) := by
+    LifeArray.reserve_loop1 this (.heap ob n) fuel (mk st H) (.heap ob 0) (.heap nb 0) =
+      some (mk (reserveCopy st ob nb (List.range n)) H, .heap ob n, .heap nb n) := by
   have := reserve_loop this ob nb H n fuel 0 st hf
   simpa [List.range_eq_range'] using this
 
@@ -59,8 +59,10 @@ theorem tr_reserve {st : State} {v : Nat} (h : AOk st v) (n fuel : Nat) (hf : (s
     by_cases h1 : n > (st.arrs v).cap
     · simp [hdrOf_none hs, hdrOf_some, h1, upd_same, rep_setArr, upd_upd, hz]
     · by_cases h2 : n > 0
-      · simp [hdrOf_none hs, hdrOf_some, h1, h2, upd_same, rep_setArr, upd_upd, hz]
-      · simp [hdrOf_none hs, hdrOf_some, h1, h2, upd_same, rep_setArr, upd_upd, hz, rep_eq]
+      · have h2' : n ≠ 0 := by omega
+        simp [hdrOf_none hs, hdrOf_some, h1, h2, h2', upd_same, rep_setArr, upd_upd, hz]
+      · have h2' : n = 0 := by omega
+        simp [hdrOf_none hs, hdrOf_some, h1, h2, h2', upd_same, rep_setArr, upd_upd, hz, rep_eq]
   | some s =>
     by_cases h1 : n > (st.arrs v).cap
     · simp [hdrOf_some hs, h1, upd_same, rep_setArr, upd_upd, reserve_loop0, hf]
@@ -146,38 +148,73 @@ theorem hdrs_apply (st : State) (a : Nat) : hdrs st a = hdrOf (st.arrs a) := rfl
 @[simp] theorem hdrs_freeBlk (st : State) (b : Nat) : hdrs (st.freeBlk b) = hdrs st := rfl
 @[simp] theorem hdrs_setArr (st : State) (v : Nat) (x : Arr) : hdrs (st.setArr v x) = upd (hdrs st) v (hdrOf x) := hdr_setArr st v x
 
+theorem usub_le {a b : Nat} (h : b ≤ a) : usub a b = a - b := by simp [usub, h]
+
+theorem tr_reserve_mk {st : State} {v : Nat} (h : AOk st v) (n fuel : Nat) (hf : (st.arrs v).size < fuel) :
+    LifeArray.reserve fuel (mk st (hdrs st)) v n = some (mk (reserveSt st v n) (hdrs (reserveSt st v n)), ()) :=
+  tr_reserve h n fuel hf
+theorem tr_reserveRef_ext_mk {st : State} {v : Nat} (h : AOk st v) (n p fuel : Nat) (hf : (st.arrs v).size < fuel) :
+    LifeArray.reserveRef fuel (mk st (hdrs st)) v n (.ext p) = some (mk (reserveSt st v n) (hdrs (reserveSt st v n)), .ext p) :=
+  tr_reserveRef_ext h n p fuel hf
+theorem tr_reserveRef_own_mk {st : State} {v : Nat} (h : AOk st v) (n fuel s i : Nat) (hf : (st.arrs v).size < fuel)
+    (hs : (st.arrs v).store = some s) (hi : i < (st.arrs v).size) (s' : Nat) (hs' : ((reserveSt st v n).arrs v).store = some s') :
+    LifeArray.reserveRef fuel (mk st (hdrs st)) v n (.heap s i) = some (mk (reserveSt st v n) (hdrs (reserveSt st v n)), .heap s' i) :=
+  tr_reserveRef_own h n fuel s i hf hs hi s' hs'
+
+/-- the two proofs below do not depend on whether `append` calls `reserve` unconditionally or only when the element does not fit
+    (a fast path that tests the spare capacity first): both shapes are covered by the case split on `size + 1 ≤ capacity` -/
 theorem tr_append {st : State} {v : Nat} (h : AOk st v) (x fuel : Nat) (hf : (st.arrs v).size < fuel) :
     ∃ st', stepRes st (.aAppend v x) = .ok st' ∧ LifeArray.append fuel (rep st) v (.ext x) = some (rep st', ()) := by
-  obtain ⟨s', c', hx, hn, hsz, _⟩ := reserveSt_arr h ((st.arrs v).size + 1) (Or.inl (by omega))
+  obtain ⟨s', c', hx, hn, hsz, hid⟩ := reserveSt_arr h ((st.arrs v).size + 1) (Or.inl (by omega))
   have hp := exec_push h.le1 hx (by omega) (.ext x) _ _ (resolve_ext _ x)
   refine ⟨((reserveSt st v ((st.arrs v).size + 1)).ctor (.heap s' (st.arrs v).size 1) (some .ext) (some x)).setArr v
       ⟨true, some s', c', (st.arrs v).size + 1⟩, ?_, ?_⟩
   · simp only [stepRes, compile, guard', decide_eq_true h.le1, if_true, execAll, exec_reserve h, hp]
-  · unfold LifeArray.append
-    have hh : hdrs (reserveSt st v ((st.arrs v).size + 1)) v = ⟨.heap s' 0, .heap s' (st.arrs v).size, c'⟩ := by
+  · have hh : hdrs (reserveSt st v ((st.arrs v).size + 1)) v = ⟨.heap s' 0, .heap s' (st.arrs v).size, c'⟩ := by
       simp [hdrs_apply, hx]
-    rw [size_rep h]
-    simp only [Option.bind_some]
-    rw [tr_reserveRef_ext h _ x fuel hf]
-    simp [rep_mk, hh, upd_same, upd_upd]
+    have hr := tr_reserveRef_ext_mk h ((st.arrs v).size + 1) x fuel hf
+    cases hs : (st.arrs v).store with
+    | none =>
+      have hz := h.none_zero hs
+      have hh0 : hdrs st v = ⟨.null, .null, (st.arrs v).cap⟩ := by simp [hdrs_apply, hdrOf_none hs]
+      rw [hz] at hr
+      simp [LifeArray.append, rep_mk, hh0, hz, hr, hh, upd_same, upd_upd] at hh ⊢
+      simp [hh, upd_same, upd_upd]
+    | some s =>
+      have hle := h.size_le s hs
+      have hh0 : hdrs st v = ⟨.heap s 0, .heap s (st.arrs v).size, (st.arrs v).cap⟩ := by simp [hdrs_apply, hdrOf_some hs]
+      by_cases hfit : (st.arrs v).size + 1 ≤ (st.arrs v).cap
+      · obtain ⟨hid1, hs1⟩ := hid s hs hfit
+        have hc : (st.arrs v).cap = c' := by rw [hid1] at hx; rw [hx]
+        have hu : 1 ≤ usub (st.arrs v).cap (st.arrs v).size := by rw [usub_le hle]; omega
+        rw [hid1] at hr hh
+        simp [LifeArray.append, rep_mk, hh0, hr, hid1, hu, hs1, hc, upd_same, upd_upd]
+      · have hu : ¬ 1 ≤ usub (st.arrs v).cap (st.arrs v).size := by rw [usub_le hle]; omega
+        simp [LifeArray.append, rep_mk, hh0, hr, hh, hu, upd_same, upd_upd]
 
 theorem tr_appendRef {st : State} {v : Nat} (h : AOk st v) (i fuel : Nat) (hf : (st.arrs v).size < fuel)
     (s : Nat) (hs : (st.arrs v).store = some s) (hi : i < (st.arrs v).size) :
     ∃ st', stepRes st (.aAppendRef v i) = .ok st' ∧ LifeArray.append fuel (rep st) v (.heap s i) = some (rep st', ()) := by
-  obtain ⟨s', c', hx, hn, hsz, _⟩ := reserveSt_arr h ((st.arrs v).size + 1) (Or.inl (by omega))
+  obtain ⟨s', c', hx, hn, hsz, hid⟩ := reserveSt_arr h ((st.arrs v).size + 1) (Or.inl (by omega))
   have hs' : ((reserveSt st v ((st.arrs v).size + 1)).arrs v).store = some s' := by rw [hx]
   have hsz' : ((reserveSt st v ((st.arrs v).size + 1)).arrs v).size = (st.arrs v).size := by rw [hx]
   have hp := exec_push h.le1 hx (by omega) (.elem v i) _ _ (resolve_elem hs' (by omega))
   refine ⟨((reserveSt st v ((st.arrs v).size + 1)).ctor (.heap s' (st.arrs v).size 1) (some (.heap s' i 1))
       ((reserveSt st v ((st.arrs v).size + 1)).mem (.heap s' i 1))).setArr v ⟨true, some s', c', (st.arrs v).size + 1⟩, ?_, ?_⟩
   · simp only [stepRes, compile, guard', decide_eq_true h.le1, decide_eq_true hi, Bool.and_self, if_true, execAll, exec_reserve h, hp]
-  · unfold LifeArray.append
-    have hh : hdrs (reserveSt st v ((st.arrs v).size + 1)) v = ⟨.heap s' 0, .heap s' (st.arrs v).size, c'⟩ := by
+  · have hh : hdrs (reserveSt st v ((st.arrs v).size + 1)) v = ⟨.heap s' 0, .heap s' (st.arrs v).size, c'⟩ := by
       simp [hdrs_apply, hx]
-    rw [size_rep h]
-    simp only [Option.bind_some]
-    rw [tr_reserveRef_own h _ fuel s i hf hs hi s' hs']
-    simp [rep_mk, hh, upd_same, upd_upd]
+    have hr := tr_reserveRef_own_mk h ((st.arrs v).size + 1) fuel s i hf hs hi s' hs'
+    have hle := h.size_le s hs
+    have hh0 : hdrs st v = ⟨.heap s 0, .heap s (st.arrs v).size, (st.arrs v).cap⟩ := by simp [hdrs_apply, hdrOf_some hs]
+    by_cases hfit : (st.arrs v).size + 1 ≤ (st.arrs v).cap
+    · obtain ⟨hid1, hs1⟩ := hid s hs hfit
+      have hc : (st.arrs v).cap = c' := by rw [hid1] at hx; rw [hx]
+      have hu : 1 ≤ usub (st.arrs v).cap (st.arrs v).size := by rw [usub_le hle]; omega
+      rw [hid1] at hr hh
+      simp [LifeArray.append, rep_mk, hh0, hr, hid1, hu, hs1, hc, upd_same, upd_upd]
+    · have hu : ¬ 1 ≤ usub (st.arrs v).cap (st.arrs v).size := by rw [usub_le hle]; omega
+      simp [LifeArray.append, rep_mk, hh0, hr, hh, hu, upd_same, upd_upd]
 
 theorem dtorLocs_arrs : ∀ (l : List Loc) (st : State), (st.dtorLocs l).arrs = st.arrs
   | [], _ => rfl
@@ -396,19 +433,36 @@ theorem tr_resize_ext {st : State} {v : Nat} (h : AOk st v) (n x fuel : Nat) (hf
   · obtain ⟨st', h1, h2⟩ := tr_resize_shrink h n (.ext x) fuel (by omega) hn
     exact ⟨st', by simp [stepRes, compile, guard', h.le1, hn, execAll, h1], h2⟩
   · by_cases h0 : 0 < n ∨ (st.arrs v).store.isSome = true
-    · obtain ⟨s', c', hx, hle, hsz, _⟩ := reserveSt_arr h n h0
+    · obtain ⟨s', c', hx, hle, hsz, hid⟩ := reserveSt_arr h n h0
       have hp := exec_pushes v s' c' h.le1 (.ext x) (fun _ => (some .ext, some x)) (fun _ _ _ => rfl) (fun _ _ _ _ => rfl)
         (n - (st.arrs v).size) (st.arrs v).size (reserveSt st v n) hx (by omega) (Or.inr rfl)
       refine ⟨_, by simp only [stepRes, compile, guard', decide_eq_true h.le1, if_true, hn, if_false, execAll, exec_reserve h]; rw [hp], ?_⟩
       have hh : hdrs (reserveSt st v n) v = ⟨.heap s' 0, .heap s' (st.arrs v).size, c'⟩ := by simp [hdrs_apply, hx]
       have hl := resize_loop2_ext v s' x (hdrs (reserveSt st v n)) (n - (st.arrs v).size) fuel (st.arrs v).size (reserveSt st v n) (by omega)
       rw [show (st.arrs v).size + (n - (st.arrs v).size) = n by omega] at hl
-      unfold LifeArray.resize
-      rw [size_rep h]
-      simp only [Option.bind_some, hn, decide_false, if_false, Bool.false_eq_true]
-      rw [tr_reserveRef_ext h _ x fuel (by omega)]
-      simp [rep_mk, hh, hl, upd_same]
-      rw [show (st.arrs v).size + (n - (st.arrs v).size) = n by omega]
+      have hr := tr_reserveRef_ext_mk h n x fuel (by omega)
+      have hnn : (st.arrs v).size + (n - (st.arrs v).size) = n := by omega
+      -- with or without a fast path that skips `reserve` when the new elements fit: case split on `n ≤ capacity`
+      cases hs : (st.arrs v).store with
+      | none =>
+        have hz := h.none_zero hs
+        have hh0 : hdrs st v = ⟨.null, .null, (st.arrs v).cap⟩ := by simp [hdrs_apply, hdrOf_none hs]
+        simp only [hz, Nat.sub_zero] at hh hl hr hn
+        simp [LifeArray.resize, rep_mk, hh0, hz, hn, hr, hh, hl, upd_same]
+      | some s =>
+        have hle' := h.size_le s hs
+        have hh0 : hdrs st v = ⟨.heap s 0, .heap s (st.arrs v).size, (st.arrs v).cap⟩ := by simp [hdrs_apply, hdrOf_some hs]
+        by_cases hfit : n ≤ (st.arrs v).cap
+        · obtain ⟨hid1, hs1⟩ := hid s hs hfit
+          have hc : (st.arrs v).cap = c' := by rw [hid1] at hx; rw [hx]
+          have hu : usub n (st.arrs v).size ≤ usub (st.arrs v).cap (st.arrs v).size := by
+            rw [usub_le hle', usub_le (by omega)]; omega
+          rw [hid1] at hr hh hl
+          subst hs1
+          simp [LifeArray.resize, rep_mk, hh0, hn, hr, hid1, hu, hc, hl, upd_same, hnn]
+        · have hu : usub (st.arrs v).cap (st.arrs v).size < usub n (st.arrs v).size := by
+            rw [usub_le hle', usub_le (by omega)]; omega
+          simp [LifeArray.resize, rep_mk, hh0, hn, hr, hh, hu, Nat.not_le.mpr hu, hl, upd_same, hnn]
     · have hn0 : n = 0 := by omega
       have hs : (st.arrs v).store = none := by
         cases hs : (st.arrs v).store with
@@ -419,10 +473,10 @@ theorem tr_resize_ext {st : State} {v : Nat} (h : AOk st v) (n x fuel : Nat) (hf
       refine ⟨st, ?_, ?_⟩
       · simp [stepRes, compile, guard', h.le1, hz, execAll, exec_reserve h, reserveSt, hs]
       · obtain ⟨f, rfl⟩ : ∃ f, fuel = f + 1 := ⟨fuel - 1, by omega⟩
-        unfold LifeArray.resize
-        rw [size_rep h]
-        simp only [Option.bind_some, hn, decide_false, if_false, Bool.false_eq_true]
-        rw [tr_reserveRef_ext h _ x (f + 1) (by omega)]
-        simp [rep_mk, reserveSt, hs, hdrs_apply, hdrOf_none hs, LifeArray.resize_loop2, hz]
-        exact congrArg _ (upd_eq_self _ _ _ (by simp [hdrs_apply, hdrOf_none hs]))
+        have hr := tr_reserveRef_ext_mk h 0 x (f + 1) (by omega)
+        have hh0 : hdrs st v = ⟨.null, .null, (st.arrs v).cap⟩ := by simp [hdrs_apply, hdrOf_none hs]
+        have hid0 : reserveSt st v 0 = st := by simp [reserveSt, hs]
+        rw [hid0] at hr
+        simp [LifeArray.resize, rep_mk, hr, hh0, LifeArray.resize_loop2, hz]
+        exact congrArg _ (upd_eq_self _ _ _ hh0)
 end Nstd.Life.ArrTr
